@@ -405,7 +405,7 @@ where
     };
     Scenario {
         name: p.name.to_string(),
-        opts: Opts { stale_reads: false, stale_depth: 2, max_spurious: 0, horizon: 60_000, log_ops: false, log_handler_ops: true, reduce: true, no_discipline: false, nest_value_t1: if E::RAW { 0x900 } else { 0 } },
+        opts: Opts { stale_reads: false, stale_depth: 2, max_spurious: 0, horizon: 60_000, log_ops: false, log_handler_ops: true, reduce: true, no_discipline: false, nest_value_t1: if E::RAW { 0x900 } else { 0 }, post_points: E::RAW },
         signals: vec![S1, S2],
         setup: Box::new(setup),
         threads,
@@ -556,7 +556,7 @@ pub fn scenarios(prop: &str, tier: Tier) -> Vec<Item> {
         "C09" | "C10" => {
             for (mode, mname) in [(Mode::Wait, "wait"), (Mode::Forever, "forever"), (Mode::Pending, "pending"), (Mode::Poll, "poll")] {
                 let mut p = ip(Box::leak(format!("sigonly_{}_2d", mname).into_boxed_str()), prop, mode);
-                p.initial = vec![S1, S2];
+                p.initial = vec![S1, S2, S1];
                 p.deliverers = vec![vec![S1, S1], vec![S2]];
                 p.nest_on_k = vec![S1];
                 v.push(item(build::<SignalOnly>(p), b(1, 2), "SignalOnly: 2 delivery threads (S1 twice, S2) + nested arrival in the consumer"));
@@ -567,6 +567,7 @@ pub fn scenarios(prop: &str, tier: Tier) -> Vec<Item> {
             v.push(item(build::<SignalOnly>(p), b(1, 2), "add_signal(S2) from another thread vs deliveries of S1 and S2"));
             for (mode, mname) in [(Mode::Wait, "wait"), (Mode::Poll, "poll")] {
                 let mut p = ip(Box::leak(format!("raw_{}_2d", mname).into_boxed_str()), prop, mode);
+                p.initial = vec![S1, S1]; // a signal listed twice is watched once
                 p.deliverers = vec![vec![S1, S1], vec![S1]];
                 p.nest_on_k = vec![S1];
                 p.match_values = true;
